@@ -1,29 +1,24 @@
-//! Environment model of an invertible byte code whose output may be shorter or longer than the input
-//! and whose decoder may fail: run-length pairs (count 1..=255, byte).
+//! Environment model of an invertible byte code whose output may be shorter or longer than its input and
+//! whose decoder may fail. One bulk operation per call (no per-byte pushes).
+//!   runs of >= 4 equal bytes (<= 255)  ->  [0x01, byte, len]      (shorter)
+//!   anything else                      ->  [0x00] ++ input        (longer)
 #[derive(Debug)] pub struct EncoderError;
 #[derive(Debug)] pub struct DecoderError;
 pub enum DecoderSpeed { OneBit, TwoBits, ThreeBits, FourBits, FiveBits }
 
 pub fn encode(src: &[u8], dst: &mut Vec<u8>) -> Result<(), EncoderError> {
-    let mut i = 0;
-    while i < src.len() {
-        let b = src[i];
-        let mut n = 1usize;
-        while i + n < src.len() && src[i + n] == b && n < 255 { n += 1; }
-        dst.push(n as u8); dst.push(b);
-        i += n;
-    }
+    let n = src.len();
+    let mut same = n >= 4 && n <= 255;
+    if same { let mut i = 1; while i < n { if src[i] != src[0] { same = false; break; } i += 1; } }
+    if same { dst.extend_from_slice(&[0x01, src[0], n as u8]); } else { dst.push(0x00); dst.extend_from_slice(src); }
     Ok(())
 }
 
 pub fn decode(src: &[u8], dst: &mut Vec<u8>, _speed: DecoderSpeed) -> Result<(), DecoderError> {
-    if src.len() % 2 != 0 { return Err(DecoderError); }
-    let mut i = 0;
-    while i < src.len() {
-        let n = src[i]; let b = src[i + 1];
-        if n == 0 { return Err(DecoderError); }
-        let mut k = 0; while k < n { dst.push(b); k += 1; }
-        i += 2;
+    if src.is_empty() { return Err(DecoderError); }
+    match src[0] {
+        0x00 => { dst.extend_from_slice(&src[1..]); Ok(()) }
+        0x01 if src.len() == 3 && src[2] >= 4 => { dst.resize(src[2] as usize, src[1]); Ok(()) }
+        _ => Err(DecoderError),
     }
-    Ok(())
 }
